@@ -372,20 +372,28 @@ struct Paths
         }
         if (p == "small")
         {
-            long dw = op.num("dw") % (W + 1), dh = op.num("dh") % (H + 1);
+            // region to read: the whole image, or a sub-rectangle given through image_read_settings
+            long rx = 0, ry = 0, rw = W, rh = H;
+            bool region = op.num("region") != 0 && cfg.subrect_ok && W > 0 && H > 0;
+            if (region) { rx = op.num("x") % W; ry = op.num("y") % H; rw = 1 + op.num("w") % (W - rx); rh = 1 + op.num("h") % (H - ry); }
+            long dw = op.num("dw") % (rw + 1), dh = op.num("dh") % (rh + 1);
             if (dw == 0 && dh == 0) dw = 1;
-            long w = W - dw, h = H - dh;
+            long w = rw - dw, h = rh - dh;
             if (w <= 0 || h <= 0) { ok.cls = "skipped"; return ok; }
             Native big(W + 2, H + 2);
             fill_const(gil::view(big), 0x5A);
             Native before(big);
             auto dst = gil::subimage_view(gil::view(big), 1, 1, (int)w, (int)h);
+            settings_t st;
+            if (region) st = settings_t(gil::point_t(rx, ry), gil::point_t(rw, rh));
             Outcome o;
-            guarded(o, [&] { with_read_device<Tag>(d, bytes, ext, [&](auto& dev) { gil::read_view(dev, dst, Tag()); }); });
-            if (o.cls == "ok") return fail("small-view-accepted", "read_view into a " + std::to_string(w) + "x" + std::to_string(h) + " view of a " + std::to_string(W) + "x" + std::to_string(H) + " image returned normally");
+            guarded(o, [&] { with_read_device<Tag>(d, bytes, ext, [&](auto& dev) { gil::read_view(dev, dst, st); }); });
+            std::string what = std::string("read_view") + " into a " + std::to_string(w) + "x" + std::to_string(h) + " view of the " +
+                               std::to_string(rw) + "x" + std::to_string(rh) + " region at (" + std::to_string(rx) + "," + std::to_string(ry) + ") of a " + std::to_string(W) + "x" + std::to_string(H) + " image";
+            if (o.cls == "ok") return fail("small-view-accepted", what + " returned normally");
             // whatever was written must lie inside dst
             gil::copy_pixels(gil::subimage_view(gil::const_view(before), 1, 1, (int)w, (int)h), dst);
-            if (!views_equal(gil::const_view(before), gil::const_view(big), why)) return fail("wrote-outside-view", "rejected read_view changed pixels outside the destination view: " + why);
+            if (!views_equal(gil::const_view(before), gil::const_view(big), why)) return fail("wrote-outside-view", "rejected " + what + " changed pixels outside the destination view: " + why);
             return ok;
         }
         if (p == "scan")
